@@ -29,6 +29,8 @@ GRIDS = [
     ('UGrid', {'edges': 'both'}, 'face'),
     ('UGrid', {'edges': 'both'}, 'edge'),
     ('UGrid', {'edges': 'none'}, 'node'),
+    # a mesh that names an edge dimension no variable is defined on (the dimension has no size): faces and nodes flatten and wind as ever
+    ('UGrid', {'edges': 'dimension', 'edge_data': False}, 'face'),
 ]
 EXTRA_NAMES = ['t', 'z', 'w']
 GRID_DIMS = {
@@ -48,7 +50,7 @@ def _perms(gi, n_extra):
 def scenarios(tier):
     out = []
     max_extra = 2 if tier == 'quick' else 3
-    quick_grids = [0, 3, 6] if tier == 'quick' else range(len(GRIDS))
+    quick_grids = [0, 3, 6, 9] if tier == 'quick' else range(len(GRIDS))
     for gi in range(len(GRIDS)):
         conv, kw, kind = GRIDS[gi]
         for ne in range(0, max_extra + 1):
